@@ -7,6 +7,10 @@ functions, lemmas, spec-trait impls, constants' mirrors):
   //@item <path relative to /repo> :: <selector> [:: <selector>]
   //@| <contract line>          (fn items only; inserted between signature and body)
   //@include <file>             lines of a file next to the template (shared prelude)
+  //@standin| old => new        an expression built from std iterator adapters Verus has no specification for is
+                                replaced by a call to a stand-in declared in the template whose contract states the
+                                adapters' documented behaviour (an ASSUMED contract on std, listed in the evidence);
+                                `old` is matched token by token (white space ignored) and must occur exactly once
   //@loop N| / //@loopbody N| / //@loopbefore N|   ghost loop specifications for the N-th loop of the body
   //@closure| old => new        a closure gets a contract (its expression must reappear unchanged)
   //@fordesugar N| it           the N-th loop, a `for PAT in EXPR { BODY }`, is replaced by the expansion the Rust
@@ -46,8 +50,8 @@ def assemble(template_path):
         loopspecs = {}
         i += 1
         rewrites = []
-        desugars, inlines = [], []
-        while i < len(lines) and re.match(r"^\s*//@(\||loop\s+\d+\||loopbody\s+\d+\||loopbefore\s+\d+\||loopafter\s+\d+\||closure\||fordesugar\s+\d+\||inline_unwrap_or_else\|)", lines[i]):
+        desugars, inlines, standins = [], [], []
+        while i < len(lines) and re.match(r"^\s*//@(\||loop\s+\d+\||loopbody\s+\d+\||loopbefore\s+\d+\||loopafter\s+\d+\||standin\||closure\||fordesugar\s+\d+\||inline_unwrap_or_else\|)", lines[i]):
             cm = re.match(r"^\s*//@closure\|\s?(.*?)\s+=>\s+(.*)$", lines[i])
             if cm:
                 # a closure gets its contract: `|x| expr`  =>  `|x: T| -> (r: U) ensures .. { expr }`.  The closure's
@@ -60,7 +64,12 @@ def assemble(template_path):
                 desugars.append((int(dm.group(1)), dm.group(2)))
                 i += 1
                 continue
-            um = re.match(r"^\s*//@inline_unwrap_or_else\|\s?(\w+)\s*$", lines[i])
+            sm = re.match(r"^\s*//@standin\|\s?(.*?)\s+=>\s+(.*)$", lines[i])
+            if sm:
+                standins.append((sm.group(1), sm.group(2)))
+                i += 1
+                continue
+            um = re.match(r"^\s*//@inline_unwrap_or_else\|\s?([\w.()]+)\s*$", lines[i])
             if um:
                 inlines.append(um.group(1))
                 i += 1
@@ -125,6 +134,9 @@ def assemble(template_path):
                     raise extract.AnchorLost(f"closure contract for `{old}` does not keep the closure's expression `{expr}`")
                 body = body.replace(old, new)
                 rec["changed"].append(f"closure `{old}` given a contract (parameter type, named result, ensures clause; its expression `{expr}` unchanged): `{new}`")
+            for old, new in standins:
+                body = replace_tokens(body, old, new)
+                rec["changed"].append(f"stand-in: `{old}` replaced by `{new}` (assumed contract of the std iterator adapters, declared in the template)")
             for recv in inlines:
                 body = inline_unwrap_or_else(body, recv)
                 rec["changed"].append(f"`{recv}.unwrap_or_else(|| {{ .. }})` replaced by std's definition `match {recv} {{ Some(v) => v, None => {{ .. }} }}` (closure body text unchanged)")
@@ -156,12 +168,23 @@ def assemble(template_path):
 BODYSTART = " /*@bodystart*/"
 
 
+def replace_tokens(body, old, new):
+    """replace the unique occurrence of the token sequence `old` (white space and comments ignored) by `new`"""
+    pat = [t for k, t, p in extract.tokenize(old) if k not in ("ws", "comment")]
+    toks = [(t, p, p + len(t)) for k, t, p in extract.tokenize(body) if k not in ("ws", "comment")]
+    hits = [i for i in range(len(toks) - len(pat) + 1) if all(toks[i + j][0] == pat[j] for j in range(len(pat)))]
+    if len(hits) != 1:
+        raise extract.AnchorLost(f"stand-in pattern `{old}` occurs {len(hits)} times (expected once)")
+    a, b = toks[hits[0]][1], toks[hits[0] + len(pat) - 1][2]
+    return body[:a] + new + body[b:]
+
+
 def inline_unwrap_or_else(body, recv):
     pat = recv + ".unwrap_or_else(|| {"
     if body.count(pat) != 1:
         raise extract.AnchorLost(f"`{pat}` occurs {body.count(pat)} times (expected once)")
     start = body.index(pat)
-    if start > 0 and re.match(r"[\w.]", body[start - 1]):
+    if start > 0 and re.match(r"[\w.)]", body[start - 1]):
         raise extract.AnchorLost(f"receiver of unwrap_or_else is not the plain variable `{recv}`")
     open_brace = start + len(pat) - 1
     toks = [(k, t, p) for k, t, p in extract.tokenize(body[open_brace:])]
